@@ -1315,16 +1315,30 @@ class Interp:
                 raise ExecError("unsupported", "use of undefined register %" + v.name)
         return self.const_val(ty, v, lay)
 
-    def _exec(self, fn, args):
+    def run_from(self, fn, block, prev, regs):
+        """continue `fn` at the entry of `block` (as if coming from `prev`) with the given register file: used by harnesses that cut a
+        function into segments between chosen blocks; the register file is typically the one carried by a LoopCut"""
+        self.callstack.append(self.prog.demangled.get(fn.name, fn.name).split("(")[0][-60:])
+        self._mod_stack.append(fn.module)
+        try:
+            return self._exec(fn, None, start=(block, prev, dict(regs)))
+        finally:
+            self.callstack.pop()
+            self._mod_stack.pop()
+
+    def _exec(self, fn, args, start=None):
         lay = self.prog.layout(fn.module)
         regs = {}
-        if len(args) != len(fn.params):
-            raise ExecError("unsupported", "arity mismatch calling " + fn.name)
-        for prm, a in zip(fn.params, args):
-            regs[prm.name] = a
         allocas = []
-        block = fn.order[0]
-        prev = None
+        if start is not None:
+            block, prev, regs = start
+        else:
+            if len(args) != len(fn.params):
+                raise ExecError("unsupported", "arity mismatch calling " + fn.name)
+            for prm, a in zip(fn.params, args):
+                regs[prm.name] = a
+            block = fn.order[0]
+            prev = None
         try:
             while True:
                 instrs = fn.blocks[block]
